@@ -4,6 +4,7 @@ import itertools
 import json
 import multiprocessing as mp
 import os
+import signal
 import shutil
 import subprocess
 import sys
@@ -74,6 +75,15 @@ def chunked(it: Iterable[Any], size: int) -> Iterator[List[Any]]:
 _WORKER: Optional[Callable[[Any, Result], None]] = None
 _ATTRIBUTE: Optional[Callable[[Dict[str, Any], Dict[str, Any]], bool]] = None
 _KNOWN: List[Dict[str, Any]] = []
+ITEM_TIMEOUT_S = int(os.environ.get("VERIF_ITEM_TIMEOUT_S", "180"))
+
+
+class _ItemTimeout(BaseException):
+    """Raised by the alarm handler; BaseException so that no `except Exception` inside a worker swallows it."""
+
+
+def _on_alarm(signum: int, frame: Any) -> None:  # pylint: disable=unused-argument
+    raise _ItemTimeout()
 _PROP: Optional[str] = None
 
 
@@ -97,7 +107,14 @@ def _run_chunk(chunk: List[Any]) -> Result:
     for item in chunk:
         n0 = len(res.violations)
         try:
-            _WORKER(item, res)
+            # no item of any space needs more than a few seconds; an analysis that is still running after
+            # ITEM_TIMEOUT_S does not terminate (e.g. a fixpoint that no longer converges): reported, not waited for
+            signal.signal(signal.SIGALRM, _on_alarm)
+            signal.alarm(ITEM_TIMEOUT_S)
+            try:
+                _WORKER(item, res)
+            finally:
+                signal.alarm(0)
             if len(res.violations) > n0:
                 # one violation per (kind, place) and item
                 new, seen_keys = [], set()
@@ -124,6 +141,8 @@ def _run_chunk(chunk: List[Any]) -> Result:
                         res.count("known:" + hit["id"])
                     else:
                         res.violations.append(v)
+        except _ItemTimeout:
+            res.violation((_PROP or "C00") + ".analysis-does-not-terminate", item, seconds=ITEM_TIMEOUT_S)
         except Exception as exc:  # pylint: disable=broad-except
             # an exception raised inside tealer's own code (innermost frame under .../tealer/) on a valid input of the
             # space means the analysed result the property speaks about does not exist: a violation, not a harness error
